@@ -1,10 +1,12 @@
 (* C02 — Every file the library writes is a structurally valid geoh5 file.
    Only statements, each closed by [exact] and followed by Print Assumptions.
-   [Rep t f pend] (Model/WsSpec.v): file f is exactly the encoding of tree t -- every entity stored once under its own
-   identifier with its attributes, every parent-to-child entry a hard link to the child's node, unique identifiers, Root
+   EXTENDED model (Model/WsX.v): property groups and copies.
+   [Rep t f pend] (Model/WsXSpec.v): file f is exactly the encoding of tree t -- every entity stored once under its own
+   identifier with its attributes (property-group blocks as a set), every property group listing only data children of its
+   own object, none twice, under distinct group identifiers, every parent-to-child entry a hard link to the child's node, unique identifiers, Root
    link to the root node -- up to the flat nodes of the identifiers in [pend], unreachable orphans.  [Valid f] = Rep with
    no orphan. *)
-From GV Require Import Prelude.Base Model.Ws Model.WsSpec Proofs.WsProofs.
+From GV Require Import Prelude.Base Model.WsX Model.WsXSpec Proofs.WsXProofs.
 
 Theorem C02_init : Rep (wmem init) (wfile init) (wpend init).
 Proof. exact rep_init. Qed.
@@ -73,14 +75,18 @@ Theorem C02_valid_refuted : ~ C02_valid_full.
 Proof. exact C02_full_refuted. Qed.
 Print Assumptions C02_valid_refuted.
 
-(* non-vacuity: the side conditions are met by a 14-operation history with a move, a removal through the parent + sweep,
-   a removal through the workspace that raises half-way and a re-open, and its final state satisfies the invariant;
-   the hypothesis of the close theorem is met with a pending dead group *)
+(* non-vacuity: the side conditions are met by a 21-operation history with property groups, a copy, moves, a data removal
+   that empties a group, a removal through the parent + sweep, a removal through the workspace that raises half-way and a
+   re-open, and its final state satisfies the invariant; the groups really are copied / scrubbed; the hypothesis of the
+   close theorem is met with a pending dead group *)
 Example C02_nonvacuous :
   fresh_run ops_demo init = true /\ clean_run ops_demo init = true /\
   (let w := run ops_demo init in Rep (wmem w) (wfile w) (wpend w)) /\
+  apgs (tattrs (match find (KO, 3%N) (wmem (run (firstn 11 ops_demo) init)) with Some t => t | None => wmem init end))
+  = [(100%N, 77%N, [(KD, 4%N)])] /\
   fresh_run ops_dead_group init = true /\ clean_run ops_dead_group init = true /\
   wpend (run ops_dead_group init) = [(KG, 1%N)].
 Proof.
-  split; [apply ops_demo_ok|]. split; [apply ops_demo_ok|]. split; [exact ops_demo_rep|]. exact ops_dead_group_ok.
+  split; [apply ops_demo_ok|]. split; [apply ops_demo_ok|]. split; [exact ops_demo_rep|].
+  split; [apply ops_demo_groups | exact ops_dead_group_ok].
 Qed.
